@@ -629,6 +629,17 @@ def run_property(ctx, module, profile, n_quick, n_thorough, monitors, keep, leng
         nontrivial = sum(1 for l in impl if l.startswith("ev w ") or l.startswith("ev save")) >= 2
         if nontrivial:
             distinct.add(hash(tuple(sc)))
+        # listed findings are reported once (unshrunk) and do not hide anything else the script shows
+        ksigs = {x for k in C.known_findings() if k.get("status") == "known" and k["property"] == prop
+                 for x in k.get("signatures", [k.get("signature")])}
+        for sig, what in hits:
+            if "%s:%s" % (prop, sig) in ksigs:
+                stats["known_hits"] = stats.get("known_hits", 0) + 1
+                v.violation("%s:%s" % (prop, sig), what, {"port": "session", "script": sc})
+        if any("%s:%s" % (prop, h[0]) in ksigs for h in hits):
+            # the closing drain of such a script fails for the listed reason (e.g. the client cannot connect): same finding
+            hits = [h for h in hits if not h[0].startswith("drain:")]
+        hits = [h for h in hits if "%s:%s" % (prop, h[0]) not in ksigs]
         if hits:
             stats["monitor_hits"] += 1
             sig, what = hits[0]
